@@ -3,8 +3,8 @@ CONSTANTS
   Repaired = TRUE
   MaxStyles = 3
   Depth = 7
-  OwnFields <- MCOwn2
-  BorderFields <- MCBorder2
+  OwnFields <- MCOwnAll
+  BorderFields <- MCBorderAll
   Values <- MCValues2
 INVARIANT TypeOK
 INVARIANT NoAliasing
